@@ -28,13 +28,13 @@ vars == << invs, bg, single, metric, ax, shape, inp, phase, out >>
 InvSetsQ == { << 8, 4 >>, << 8, 4, 2 >> }
 InvSetsT == InvSetsQ \cup { << 8, 2, 1 >>, << 4, 1 >>, << 8, 4, 2, 1 >> }
 AxShapesQ == { << 3, << 1, 1, 3 >> >>, << 1, << 2, 1, 1 >> >>, << 2, << 1, 2, 1 >> >>, << 3, << 2, 1, 2 >> >> }
-AxShapesT == AxShapesQ \cup { << 1, << 3, 1, 1 >> >>, << 1, << 1, 1, 1 >> >>, << 2, << 1, 1, 2 >> >>, << 2, << 1, 3, 1 >> >>, << 1, << 2, 2, 1 >> >>, << 2, << 2, 2, 1 >> >>, << 3, << 1, 1, 4 >> >>,
-                              << 1, << 2, 1, 2 >> >>, << 3, << 1, 1, 2 >> >> }
+AxShapesT == AxShapesQ \cup { << 1, << 3, 1, 1 >> >>, << 1, << 1, 1, 1 >> >>, << 2, << 1, 1, 2 >> >>, << 2, << 1, 3, 1 >> >>,
+                              << 1, << 2, 2, 1 >> >>, << 3, << 1, 1, 4 >> >>, << 3, << 1, 1, 2 >> >> }
 AxShapesNeg == { << 3, << 1, 1, 3 >> >>, << 2, << 1, 3, 1 >> >> }
 GridQ3 == { 1, 3, 4, 6, 8 }
 GridQ4 == { 1, 5, 8 }
-GridT3 == 0..9
-GridT4 == { 0, 1, 2, 3, 4, 6, 8, 9 }
+GridT3 == { 0, 1, 2, 3, 4, 6, 8, 9 }
+GridT4 == { 0, 2, 4, 8, 9 }
 
 N == Len(invs)
 L == shape[ax]
